@@ -95,9 +95,18 @@ var mutators = []cand{
 		}
 		return false
 	}},
-	{"version+0", func(r *rand.Rand, c *ctx, s *channel.State, _ *channel.Index) bool { s.Version = c.cur.Version; return true }},
-	{"version+2", func(r *rand.Rand, c *ctx, s *channel.State, _ *channel.Index) bool { s.Version = c.cur.Version + 2; return true }},
-	{"version-1", func(r *rand.Rand, c *ctx, s *channel.State, _ *channel.Index) bool { s.Version = c.cur.Version - 1; return true }},
+	{"version+0", func(r *rand.Rand, c *ctx, s *channel.State, _ *channel.Index) bool {
+		s.Version = c.cur.Version
+		return true
+	}},
+	{"version+2", func(r *rand.Rand, c *ctx, s *channel.State, _ *channel.Index) bool {
+		s.Version = c.cur.Version + 2
+		return true
+	}},
+	{"version-1", func(r *rand.Rand, c *ctx, s *channel.State, _ *channel.Index) bool {
+		s.Version = c.cur.Version - 1
+		return true
+	}},
 	{"version-max", func(r *rand.Rand, c *ctx, s *channel.State, _ *channel.Index) bool {
 		s.Version = math.MaxUint64
 		return c.cur.Version != math.MaxUint64-1
@@ -198,7 +207,10 @@ var mutators = []cand{
 		s.Locked[k].Bals = s.Locked[k].Bals[:l]
 		return true
 	}},
-	{"wrong-id", func(r *rand.Rand, c *ctx, s *channel.State, _ *channel.Index) bool { s.ID[r.Intn(32)] ^= 4; return true }},
+	{"wrong-id", func(r *rand.Rand, c *ctx, s *channel.State, _ *channel.Index) bool {
+		s.ID[r.Intn(32)] ^= 4
+		return true
+	}},
 	{"wrong-app", func(r *rand.Rand, c *ctx, s *channel.State, _ *channel.Index) bool {
 		switch c.app {
 		case gen.AppNone:
@@ -210,7 +222,10 @@ var mutators = []cand{
 		}
 		return true
 	}},
-	{"actor=N", func(r *rand.Rand, c *ctx, s *channel.State, a *channel.Index) bool { *a = channel.Index(len(c.p.Parts)); return true }},
+	{"actor=N", func(r *rand.Rand, c *ctx, s *channel.State, a *channel.Index) bool {
+		*a = channel.Index(len(c.p.Parts))
+		return true
+	}},
 	{"actor=65535", func(r *rand.Rand, c *ctx, s *channel.State, a *channel.Index) bool { *a = 65535; return true }},
 	{"actor-takes-from-peer", func(r *rand.Rand, c *ctx, s *channel.State, a *channel.Index) bool {
 		// sums preserved; violates only the payment app's rule
@@ -256,7 +271,10 @@ var mutators = []cand{
 		s.Data = gen.DataFor(r, gen.DApp)
 		return true
 	}},
-	{"final-flag", func(r *rand.Rand, c *ctx, s *channel.State, _ *channel.Index) bool { s.IsFinal = !s.IsFinal; return true }},
+	{"final-flag", func(r *rand.Rand, c *ctx, s *channel.State, _ *channel.Index) bool {
+		s.IsFinal = !s.IsFinal
+		return true
+	}},
 	{"no-assets", func(r *rand.Rand, c *ctx, s *channel.State, _ *channel.Index) bool {
 		s.Assets, s.Backends, s.Balances, s.Locked = nil, nil, nil, nil
 		return true
@@ -534,7 +552,10 @@ func initCases(r *ev.Run, rng *rand.Rand, c *ctx, m *channel.StateMachine, good 
 			return true
 		}},
 		{"negative", func(a *channel.Allocation) bool { a.Balances[0][rng.Intn(n)] = big.NewInt(-5); return true }},
-		{"no-assets", func(a *channel.Allocation) bool { a.Assets, a.Backends, a.Balances, a.Locked = nil, nil, nil, nil; return true }},
+		{"no-assets", func(a *channel.Allocation) bool {
+			a.Assets, a.Backends, a.Balances, a.Locked = nil, nil, nil, nil
+			return true
+		}},
 		{"balance-rows!=assets", func(a *channel.Allocation) bool { a.Balances = append(a.Balances, a.Balances[0]); return true }},
 		{"locked-vector-short", func(a *channel.Allocation) bool {
 			if len(a.Locked) == 0 {
